@@ -78,6 +78,19 @@ Definition g_cfg_psk_cid_mtu40 : cfg :=
               (5, [[Hs 2 1 0 40 62]; [Hs 2 1 40 22 62]; [Hs 12 2 0 14 14]; [Hs 14 3 0 0 0]]);
               (7, [[Hs 16 2 0 14 14]; [CCS]; [Fin 3]]);
               (9, [[CCS]; [Fin 4]])] |}.
+Definition g_cfg_psk_cid : cfg :=
+  {| c_hv := true; c_psk := true; c_resume := false; c_initial := 1000%N; c_backoff := true;
+     c_fl := [(2, [[Hs 1 0 0 110 110]]);
+              (3, [[Hs 3 0 0 23 23]]);
+              (4, [[Hs 1 1 0 130 130]]);
+              (5, [[Hs 2 1 0 62 62; Hs 12 2 0 14 14; Hs 14 3 0 0 0]]);
+              (7, [[Hs 16 2 0 14 14; CCS; Fin 3]]);
+              (9, [[CCS; Fin 4]])] |}.
+Definition g_cfg_psk_cid_resumed : cfg :=
+  {| c_hv := false; c_psk := true; c_resume := true; c_initial := 1000%N; c_backoff := true;
+     c_fl := [(2, [[Hs 1 0 0 163 163]]);
+              (6, [[Hs 2 0 0 94 94; CCS; Fin 1]]);
+              (8, [[CCS; Fin 1]])] |}.
 Definition g_cfg_cert_stores_mtu200 : cfg :=
   {| c_hv := true; c_psk := false; c_resume := false; c_initial := 1000%N; c_backoff := true;
      c_fl := [(2, [[Hs 1 0 0 132 132]]);
@@ -94,4 +107,4 @@ Definition g_cfg_psk_stores : cfg :=
               (5, [[Hs 2 1 0 81 81; Hs 12 2 0 14 14; Hs 14 3 0 0 0]]);
               (7, [[Hs 16 2 0 14 14; CCS; Fin 3]]);
               (9, [[CCS; Fin 4]])] |}.
-Definition g_cfg_names : list cfg := [g_cfg_psk; g_cfg_psk_nohint; g_cfg_psk_skiphv; g_cfg_cert; g_cfg_cert_clientauth; g_cfg_cert_mtu200; g_cfg_cert_clientauth_mtu150; g_cfg_psk_resumed; g_cfg_cert_resumed; g_cfg_psk_cid_mtu40; g_cfg_cert_stores_mtu200; g_cfg_psk_stores].
+Definition g_cfg_names : list cfg := [g_cfg_psk; g_cfg_psk_nohint; g_cfg_psk_skiphv; g_cfg_cert; g_cfg_cert_clientauth; g_cfg_cert_mtu200; g_cfg_cert_clientauth_mtu150; g_cfg_psk_resumed; g_cfg_cert_resumed; g_cfg_psk_cid_mtu40; g_cfg_psk_cid; g_cfg_psk_cid_resumed; g_cfg_cert_stores_mtu200; g_cfg_psk_stores].
